@@ -174,9 +174,44 @@ def trunc_to_int(x):
     if z3.is_int(x):
         return x
     s = z3.simplify(x)
+    iv = int_valued(s)
+    if iv is not None:
+        return iv
+    return z3.If(x >= 0, z3.ToInt(x), -z3.ToInt(-x))
+
+
+def int_valued(s, depth=0):
+    """Int term equal to the Real term `s` when `s` is integer-valued by construction (ToReal of an Int, integer literal,
+    sums / integer multiples / negations / if-then-else of such terms); None otherwise."""
+    if depth > 40:
+        return None
+    if z3.is_int(s):
+        return s
+    if z3.is_rational_value(s):
+        return z3.IntVal(s.numerator_as_long()) if s.denominator_as_long() == 1 else None
     if z3.is_app_of(s, z3.Z3_OP_TO_REAL):
         return s.arg(0)
-    return z3.If(x >= 0, z3.ToInt(x), -z3.ToInt(-x))
+    if z3.is_app_of(s, z3.Z3_OP_ITE):
+        a, b = int_valued(s.arg(1), depth + 1), int_valued(s.arg(2), depth + 1)
+        return None if a is None or b is None else z3.If(s.arg(0), a, b)
+    if z3.is_app_of(s, z3.Z3_OP_ADD) or z3.is_app_of(s, z3.Z3_OP_MUL) or z3.is_app_of(s, z3.Z3_OP_SUB) or z3.is_app_of(s, z3.Z3_OP_UMINUS):
+        parts = [int_valued(c, depth + 1) for c in s.children()]
+        if any(q is None for q in parts):
+            return None
+        if z3.is_app_of(s, z3.Z3_OP_ADD):
+            return z3.Sum(parts)
+        if z3.is_app_of(s, z3.Z3_OP_UMINUS):
+            return -parts[0]
+        if z3.is_app_of(s, z3.Z3_OP_SUB):
+            r = parts[0]
+            for q in parts[1:]:
+                r = r - q
+            return r
+        r = parts[0]
+        for q in parts[1:]:
+            r = r * q
+        return r
+    return None
 
 
 class Cx:
@@ -452,6 +487,8 @@ def arr_kind_of(values):
 
 
 def coerce_cell(v, kind):
+    if type(v).__name__ == "InfVal":
+        return v
     if isinstance(v, Cx):
         if kind == "c":
             return v
